@@ -278,5 +278,99 @@ def oracle(ctx, F, amp, f, a, i):
             ctx.violation(case, "EXACT is not case-sensitive equality", impl=r, expected=a[0] == a[1])
 
 
+INT_PARTS = ['0', '#', '00', '000', '#,##0', '#,###', '#0', '0#', '##', '0,000', '#,#', ',0', '0,', '##,##', '']
+FRAC_PARTS = ['', '.', '.0', '.00', '.000', '.0#', '.##', '.0##', '.#', '.#0', '.0000']
+ORACLE_INT = {'0': 1, '00': 2, '000': 3, '#': 0, '#,##0': 1, '#,###': 0}
+ORACLE_FRAC = {'': (0, 0), '.0': (1, 0), '.00': (2, 0), '.000': (3, 0), '.0#': (1, 1), '.##': (0, 2),
+               '.0##': (1, 2), '.#': (0, 1), '.0000': (4, 0)}
+
+
+def text_expected(x, ip, fp, pct, as_implemented=False):
+    """TEXT as the property states it: the decimal the user wrote (repr), scaled by 100 per %,
+    rounded half away from zero to the requested digits, grouped, padded.
+    as_implemented=True: the same rendering of the half-EVEN rounding of the exact binary value
+    of the (float-scaled) number — used only to name the cause of a violation."""
+    import decimal
+    if as_implemented:
+        d = decimal.Decimal(x * 100 ** len(pct))
+        mode = decimal.ROUND_HALF_EVEN
+    else:
+        d = decimal.Decimal(repr(x)) if isinstance(x, float) else decimal.Decimal(x)
+        d *= 100 ** len(pct)
+        mode = decimal.ROUND_HALF_UP
+    a, b = ORACLE_FRAC[fp]
+    with decimal.localcontext() as c:
+        c.prec = 80
+        q = abs(d).quantize(decimal.Decimal(1).scaleb(-(a + b)), rounding=mode)
+    digits = f"{q:f}"
+    whole, _, frac = digits.partition('.')
+    frac = frac.rstrip('0').ljust(a, '0') if a + b else ''
+    z = ORACLE_INT[ip]
+    w = int(whole)
+    ws = (f"{w:,}" if ',' in ip else str(w)) if (w or z) else ''
+    ws = ws.zfill(z)
+    out = ('-' if d < 0 else '') + ws
+    if fp:
+        out += '.' + frac
+    return out + pct
+
+
 def text_part(ctx, F):
-    pass
+    thorough = ctx.tier == 'thorough'
+    nums = [None, 0, 1, 5, 12, 123, 1234, 12345, 1234567, 2958465, 2958466, 40000000, -1, -12, -1234567,
+            0.5, 1.5, 2.5, 3.5, 0.125, 0.375, 0.625, 2.25, 1234.5, 1234567.875, -0.5, -2.5, -0.125, -1234.5,
+            0.1, 0.25, 0.285, 1.005, 2.675, 0.045, 0.05, 0.15, 0.35, 0.005, 0.015, 0.994, 0.995, 0.9995,
+            99.5, 999.5, 999.995, 9.995, 1e-05, 0.001, -0.001, -0.285, 12.3456, 0.07, 0.575, 1.115, 8.345]
+    for _ in range(ctx.n(120, 2500)):
+        j = ctx.rng.randrange(0, 5)
+        k = ctx.rng.randrange(-200000, 2000000) if ctx.rng.random() < 0.7 else ctx.rng.randrange(-500, 500)
+        nums.append(k / 10 ** j if j else k)
+        if ctx.rng.random() < 0.3:
+            nums.append(ctx.rng.randrange(-40000, 40000) / 2 ** ctx.rng.randrange(1, 8))
+    fmts = []
+    for ip in INT_PARTS:
+        for fp in FRAC_PARTS:
+            for pct in ('', '%'):
+                fmts.append((ip + fp + pct, ip, fp, pct))
+    for extra in ('%0', '0%%', '%', ',', '.%', '0.0,0', '#,##0.00%', '0,0.0', '#.#,#', '%#,##0.0', '0.0.0', '..'):
+        fmts.append((extra, None, None, None))
+    for _ in range(ctx.n(60, 1500)):
+        fmts.append(("".join(ctx.rng.choice('0#,.%00##') for _ in range(ctx.rng.randrange(1, 7))), None, None, None))
+    calls = []
+    for x in nums:
+        for (f, ip, fp, pct) in (fmts if thorough or len(calls) < 400000 else fmts[:40]):
+            if not thorough and ctx.rng.random() < 0.5 and x not in (2.5, 0.125, 0.285, 1234567.875, -2.5):
+                continue
+            calls.append((x, f, ip, fp, pct))
+    impl = [run_impl(F['text'], x, f) for x, f, *_ in calls]
+    model = [None] * len(calls)
+    if ctx.model:
+        model = [dec_res(r) for r in ctx.model.batch(
+            [('text', [enc_val(x), enc_val(f)]) for x, f, *_ in calls])]
+    for (x, f, ip, fp, pct), i, m in zip(calls, impl, model):
+        case = dict(call='text', args=[x, f])
+        ctx.count(('text', repr(x), f), kind='text:' + ('grammar' if ip in ORACLE_INT and fp in ORACLE_FRAC
+                                                       else 'other'),
+                  sample=dict(call='text', args=[x, f], impl=i))
+        npct = f.count('%')
+        exact = not (npct and isinstance(x, float)) or \
+            fractions.Fraction(x) * 100 ** npct == fractions.Fraction(x * 100 ** npct)
+        if m is not None:
+            if m[0] == 'raise' and m[1] in ('Unmodelled', 'OutOfFuel'):
+                ctx.histogram['unmodelled'] = ctx.histogram.get('unmodelled', 0) + 1
+            elif not exact:
+                ctx.histogram['text:inexact-scaling-skipped'] = \
+                    ctx.histogram.get('text:inexact-scaling-skipped', 0) + 1
+            elif m != i:
+                ctx.divergence(case, i, m, 'Model/TextFormat.v = pycel.lib.text.text via apply_meta')
+        if i[0] == 'raise':
+            ctx.violation(case, f"TEXT raises {i[1]}", impl=i)
+        elif ip in ORACLE_INT and fp in ORACLE_FRAC and x is not None:
+            want = text_expected(x, ip, fp, pct)
+            if i[1] != want:
+                if i[1] == text_expected(x, ip, fp, pct, as_implemented=True):
+                    what = ("TEXT rounds the binary value of the number half-to-even instead of the "
+                            "decimal half away from zero")
+                else:
+                    what = "TEXT does not render the requested digits, grouping and percent scaling"
+                ctx.violation(case, what, impl=i[1], expected=want)
